@@ -1,5 +1,7 @@
-//! Conformance harness for property C10, see /verif/DESIGN.md.
+//! Property C10 shares its specification (spec/Semantics.tla) and its
+//! conformance harness with C02: lib/checks/c10.py drives the `yv-c02` binary
+//! (harness/c02).  This crate only exists as a workspace member.
 fn main() {
-    eprintln!("yv-c10: not implemented yet");
+    eprintln!("yv-c10: use yv-c02 (see lib/checks/c10.py)");
     std::process::exit(2);
 }
